@@ -33,13 +33,31 @@ def gen_arg(rng, sz):
     return rng.randrange(0, sz + 3)
 
 
-def gen_ops(rng, sz, n, writable=True, whences=(0, 0, 0, 1, 1, 2, 2, 3)):
+def gen_ops(rng, sz, n, writable=True, whences=(0, 0, 0, 1, 1, 2, 2, 3), refused_writes=False, spellings=False):
     """random history; an estimate of the position is tracked so that coincidences a wrapper might special-case are hit on purpose:
-    a relative seek BY the current position, an absolute seek TO it, seek(0, 2) at position 0"""
+    a relative seek BY the current position, an absolute seek TO it, seek(0, 2) at position 0.
+    refused_writes: writes are generated although the view is not writable (the refusal must leave everything as it was);
+    spellings: read(None) for "all that is left", and writes given as a buffer of 2/4/8-byte items (an ordinary file counts bytes)"""
     ops = []
     pos = 0
     for _ in range(n):
         c = rng.randrange(11)
+        if not writable and refused_writes and rng.random() < 0.2:
+            ops.append(['w', pyenv.rbytes(rng, rng.choice([1, 5, 16, 17])).hex()])
+            if rng.random() < 0.6:
+                ops.append(['r', rng.choice([1, 5, 16, 17])])          # ... directly followed by a read: no seek in between
+                pos += min(ops[-1][1], max(0, sz - pos))
+            continue
+        if spellings and rng.random() < 0.12:
+            if writable and rng.random() < 0.6:
+                item = rng.choice([2, 4, 8])
+                k = item * rng.randrange(1, 6)
+                ops.append(['wv', pyenv.rbytes(rng, k).hex(), item])
+                pos += k
+            else:
+                ops.append(['r', None])
+                pos += max(0, sz - pos)
+            continue
         if c < 4:
             a = gen_arg(rng, sz)
             ops.append(['r', a])
@@ -99,6 +117,7 @@ class Contract:
         self.writable = writable
         self.probe_outside = probe_outside   # () -> bytes of everything outside the window
         self.extends = extends               # view may grow on writes (plain CTR wrapper over a whole file)
+        self.read_error = None               # name of the error reads are expected to be refused with (a keyslot without a key)
         self.results = []
 
     def tell(self):
@@ -120,12 +139,22 @@ class Contract:
             try:
                 r = v.read(n)
             except Exception as e:
-                self.fail('read-raises', f'read({n}) at {pos} raised {pyenv.errname(e)}', 'bytes', pyenv.errname(e))
+                if pyenv.errname(e) != self.read_error:
+                    self.fail('read-raises', f'read({n}) at {pos} raised {pyenv.errname(e)}', 'bytes', pyenv.errname(e))
                 self.results.append('e:' + pyenv.errname(e))
+                # a read that was refused has returned nothing, so it has consumed nothing
+                try:
+                    after = self.tell()
+                except Exception:
+                    after = None
+                if after != pos:
+                    self.fail('read-error-moved', f'read({n}) at {pos} raised {pyenv.errname(e)} and left the position at {after}', pos, after)
                 return
             r = bytes(r)
             self.results.append('h:' + r.hex())
             remaining = max(0, self.sz - pos)
+            if n is None:
+                n = -1
             want = remaining if n < 0 else min(n, remaining)
             exp = bytes(self.content[pos:pos + want])
             if n >= 0 and len(r) > n:
@@ -139,16 +168,26 @@ class Contract:
             if after != pos + len(r):
                 self.fail('read-position', f'position after read({n}) at {pos} returning {len(r)} bytes',
                           pos + len(r), after)
-        elif kind == 'w':
+        elif kind in ('w', 'wv'):
             d = bytes.fromhex(op[1])
             outside0 = self.probe_outside() if self.probe_outside else None
             try:
-                k = v.write(d)
+                # 'wv': the same bytes handed over as a buffer of wider items; a file counts and stores bytes whatever the item size
+                k = v.write(d if kind == 'w' else memoryview(d).cast({2: 'H', 4: 'I', 8: 'Q'}[op[2]]))
             except Exception as e:
                 if self.writable:
                     self.fail('write-raises', f'write of {len(d)} bytes at {pos} raised {pyenv.errname(e)}', 'a count',
                               pyenv.errname(e))
                 self.results.append('e:' + pyenv.errname(e))
+                # a call that was refused has changed nothing: not the position, not a byte outside
+                try:
+                    after = self.tell()
+                except Exception:
+                    after = None
+                if after != pos:
+                    self.fail('write-error-moved', f'write of {len(d)} bytes at {pos} raised {pyenv.errname(e)} and left the position at {after}', pos, after)
+                if outside0 is not None and self.probe_outside() != outside0:
+                    self.fail('write-outside-window', f'refused write of {len(d)} bytes at {pos} changed bytes outside the window', 'unchanged', 'changed')
                 return
             self.results.append('i:%x' % k if isinstance(k, int) else 'i:?')
             if not isinstance(k, int) or k < 0 or k > len(d):
@@ -231,9 +270,9 @@ class Contract:
 def op_line(op):
     from .core import zhex
     if op[0] == 'r':
-        return f'r {zhex(op[1])}'
+        return f'r {zhex(-1 if op[1] is None else op[1])}'
     if op[0] == 's':
         return f's {zhex(op[1])} {zhex(op[2])}'
-    if op[0] == 'w':
+    if op[0] in ('w', 'wv'):
         return f'w h:{op[1]}'
     return 't'
